@@ -93,6 +93,27 @@ TABLE_PATHS = {
 }
 
 
+#: ledgers outside the family, local to this check (they may load WITH errors; all directives are kept)
+EXTRAS = dict(ledgers.EXTRAS)
+# a Close for an account that has no Open (validation error; #accounts lists it with open NULL), used by a posting
+EXTRAS['close_without_open'] = ledgers.PREAMBLE + (
+    '2020-01-03 * "Carried over"\n  Assets:Legacy  10.00 USD\n    p-str: "legacy"\n  Assets:Cash  -10.00 USD\n'
+    '2020-06-30 close Assets:Legacy\n  c-str: "migrated"\n  o-str: "on the close"\n'
+    '2020-12-30 close Liabilities:Card\n')
+# metadata keys that are named like the lower-cased currency / account / narration / payee of the row, so that a
+# key EXPRESSION (meta(lower(currency)), ...) selects a different, existing key on different rows
+EXTRAS['row_keys'] = ledgers.PREAMBLE + (
+    '2020-01-07 * "eur" "usd"\n  usd: "entry usd"\n  eur: 11\n  assets-bank: "entry bank"\n'
+    '  Assets:Cash  -125.00 USD\n    usd: "cash usd"\n    eur: "cash eur"\n    assets-cash: 1\n    assets-bank: 2\n'
+    '  Assets:Bank  100.00 EUR @ 1.25 USD\n    usd: "bank usd"\n    eur: 2020-01-01\n    assets-cash: 3\n    assets-bank: 4\n'
+    '2020-01-08 * "usd" "eur"\n  eur: "second entry eur"\n  assets-cash: TRUE\n'
+    '  Assets:Bank  -10.00 EUR @ 1.25 USD\n    eur: "b"\n  Assets:Cash  12.50 USD\n  Expenses:Fees  0.00 USD\n    usd: "fee"\n')
+
+
+def _re_sub_colon(account):
+    return account.lower().replace(':', '-')
+
+
 def F(name, *args):
     return A.Function(name, list(args))
 
@@ -103,6 +124,16 @@ def K(v):
 
 def col(name):
     return A.Column(name)
+
+
+#: key expressions that vary by row: (text, ast builder, reference key of a posting row model)
+ROW_KEYS = [
+    ('lower(currency)', lambda: F('lower', col('currency')), lambda r: r['currency'].lower()),
+    ("subst(':', '-', lower(account))", lambda: F('subst', K(':'), K('-'), F('lower', col('account'))),
+     lambda r: _re_sub_colon(r['account'])),
+    ('narration', lambda: col('narration'), lambda r: r['narration']),
+    ('payee', lambda: col('payee'), lambda r: r['payee']),
+]
 
 
 def path_ast(path):
@@ -302,7 +333,23 @@ class Explorer:
                             lambda r: R.directive_meta(comm.get(r['currency']))))
         g_path = [T('.'.join(p), path_ast(p), 'postings.' + '.'.join(p),
                     lambda r, p=p: R.attr_path(r[p[0]], p[1:])) for p in POSTING_PATHS]
-        self.check_table('postings', prow, pcols, [g_meta, g_entry, g_any, g_open, g_comm, g_path])
+        # keys computed per row (NULL key -> NULL)
+        g_var = []
+        for ktext, knode, kref in ROW_KEYS:
+            g_var += [
+                T(f'meta({ktext})', F('meta', knode()), 'meta()',
+                  lambda r, kref=kref: None if kref(r) is None else R.meta_lookup(r['$posting'], kref(r))),
+                T(f'entry_meta({ktext})', F('entry_meta', knode()), 'entry_meta()',
+                  lambda r, kref=kref: None if kref(r) is None else R.entry_meta_lookup(r['entry'], kref(r))),
+                T(f'any_meta({ktext})', F('any_meta', knode()), 'any_meta()',
+                  lambda r, kref=kref: None if kref(r) is None else R.any_meta_lookup(r['$posting'], r['entry'], kref(r))),
+            ]
+        for r in prow:
+            for _, _, kref in ROW_KEYS:
+                k = kref(r)
+                if k is not None and r['$posting'].meta and r['$posting'].meta.get(k) is not None:
+                    acc.count('row_key_hits')
+        self.check_table('postings', prow, pcols, [g_meta, g_entry, g_any, g_open, g_comm, g_path, g_var])
 
         # ---- entries ---------------------------------------------------------------------------
         erow = R.entries_rows(entries)
@@ -377,10 +424,9 @@ def extras(acc, seed):
     for legacy in (False, True):
         explore(acc, full, 'FULL-ALPHABET' + (' [pad postings without metadata]' if legacy else ''),
                 {'kind': 'full', 'seed': seed, 'legacy': legacy}, legacy=legacy)
-    for name, text in ledgers.EXTRAS.items():
-        assert ledgers.load(text)[1], 'EXTRAS are the ledgers that load with errors'
+    for name, text in EXTRAS.items():
         explore(acc, text, f'EXTRA:{name}', {'kind': 'extra', 'name': name, 'seed': seed, 'legacy': False})
-    acc.count('extra_ledgers', 1 + len(ledgers.EXTRAS))
+    acc.count('extra_ledgers', 1 + len(EXTRAS))
 
 
 def spec_text(spec, seed):
@@ -389,14 +435,14 @@ def spec_text(spec, seed):
         return f'{list(spec["names"])}', ledgers.text_of(spec['names'], seed)
     if spec.get('full'):
         return 'FULL-ALPHABET', ledgers.text_of(ledgers.NAMES, seed)
-    return f'EXTRA:{spec["extra"]}', ledgers.EXTRAS[spec['extra']]
+    return f'EXTRA:{spec["extra"]}', EXTRAS[spec['extra']]
 
 
 def reattach_pairs():
     """Ordered pairs (A, B), A != B: all pairs of the n <= 1 family, the full alphabet against every member of
     the n <= 1 family in both directions, and the full alphabet against the ledgers that load with errors."""
     small = [{'names': list(names)} for names, _ in ledgers.family(1, verify=False)]
-    rich = [{'full': True}] + [{'extra': name} for name in ledgers.EXTRAS]
+    rich = [{'full': True}] + [{'extra': name} for name in EXTRAS]
     pairs = [(a, b) for a in small for b in small if a != b]
     pairs += [(a, b) for a in small for b in rich] + [(a, b) for a in rich for b in small]
     pairs += [(a, b) for a in rich for b in rich if a != b]
@@ -460,7 +506,7 @@ def replay(case):
         text = ledgers.text_of(ledgers.NAMES, seed)
         label = 'FULL-ALPHABET'
     else:
-        text = ledgers.EXTRAS[case['name']]
+        text = EXTRAS[case['name']]
         label = f'EXTRA:{case["name"]}'
     explore(acc, text, label + (' [pad postings without metadata]' if case.get('legacy') else ''),
             {k: v for k, v in case.items() if k != 'fingerprint'}, legacy=bool(case.get('legacy')))
@@ -516,6 +562,8 @@ def run(ctx):
         'legacy_pad_variants': acc.n['legacy_variants'],
         'extra_ledgers_outside_the_bound': acc.n['extra_ledgers'],
         'reattach_pairs': acc.n['reattach_pairs'],
+        'extra_ledgers': sorted(EXTRAS),
+        'row_dependent_key_lookups_hitting_a_key': acc.n['row_key_hits'],
         'reattach_rule': 'ordered pairs (A, B), A != B: all pairs of the n <= 1 family + full alphabet and error ledgers against '
                          'the n <= 1 family in both directions; B attached with Connection.attach on a connection that had A, then '
                          'the full oracle of B (fingerprint "reattach")',
